@@ -487,15 +487,41 @@ func R4ReplyIsBatch(c *Ctx) {
 		bad := ""
 		wrote := false
 		EachCall(fn, func(call ssa.CallInstruction) {
-			if CalleeName(call) != "(*bytes.Buffer).Write" || !InstrDominates(gq, call.(ssa.Instruction)) {
+			if !InstrDominates(gq, call.(ssa.Instruction)) {
 				return
 			}
-			arg := call.Common().Args[1]
-			if arg == ssa.Value(enc) {
+			if CalleeName(call) == "(*bytes.Buffer).Write" {
+				if call.Common().Args[1] == ssa.Value(enc) {
+					wrote = true
+				} else {
+					bad = c.pos(call.Pos())
+				}
+				return
+			}
+			// a helper of this package that writes the bytes it is given into the buffer it is given
+			h := call.Common().StaticCallee()
+			if h == nil || h.Blocks == nil || FuncPkgPathOf(h) != PkgHandlers {
+				return
+			}
+			writesParam := -1
+			EachCall(h, func(hc ssa.CallInstruction) {
+				if CalleeName(hc) != "(*bytes.Buffer).Write" {
+					return
+				}
+				for i, prm := range h.Params {
+					if hc.Common().Args[1] == ssa.Value(prm) {
+						writesParam = i
+					}
+				}
+			})
+			if writesParam < 0 || writesParam >= len(call.Common().Args) {
+				return
+			}
+			if call.Common().Args[writesParam] == ssa.Value(enc) {
 				wrote = true
-				return
+			} else {
+				bad = c.pos(call.Pos())
 			}
-			bad = c.pos(call.Pos())
 		})
 		switch {
 		case bad != "":
